@@ -86,11 +86,16 @@ structure GenCfg where
       (only root slices are exempted from `if len(path) == 0 { return }`). -/
   loopRootMapSkipped : Bool := true
   /-- `true` (original emitter): a typed-nil root (`(*T)(nil)`, a `**T` whose target is nil, a nil `**T`)
-      is dereferenced by every method except DeepEqual. -/
+      is dereferenced by every method; DeepEqual tests typed-nil `*T` roots itself (`lx == nil`) but
+      dereferences a nil `**T` in its header (`lx, leq = *lp, true`). -/
   nilRootPanics : Bool := true
   /-- `true` (original library): Assign/AssignBuf (hence Set) dereference a nil pointer passed as the
       source value (`*src.(*int)` in every arm of the type switches). -/
   assignNilSrcPanics : Bool := true
+  /-- `true` (original emitter): Loop renders a pointer-typed map key with `*k` without a nil test, so a nil
+      pointer key panics when the iterator asks for keys (compiler.go:785-800). Repaired: the key text of a
+      nil pointer key stays empty. -/
+  loopNilKeyPanics : Bool := true
 deriving Repr, Inhabited
 
 /-- The configuration that mirrors the tree as it is (flags flip when a `fix:` commit lands). -/
@@ -121,6 +126,7 @@ def GenCfg.fixed : GenCfg where
   loopRootMapSkipped := false
   nilRootPanics := false
   assignNilSrcPanics := false
+  loopNilKeyPanics := false
 
 /-- After the nested block of a non-basic node: the "special case to take value by pointer"
 (compiler.go:964-975). Not emitted for the root (`v != "x"`). -/
